@@ -249,7 +249,8 @@ func findNodesAsker(seed int64, variant int) (map[string]any, error) {
 	}
 	defer R.Close()
 	rid, aid := R.Self().ID(), A.P.Self().ID()
-	dists := [][]uint{{256}, {255, 254}, {256, 255, 254}, {0, 256}}[variant%4]
+	// the empty (non-nil) list: nothing is requested, so no record of the reply may be used (sweep mutant E/12-C11)
+	dists := [][]uint{{256}, {255, 254}, {256, 255, 254}, {0, 256}, {}}[variant%5]
 	inReq := func(ld int) bool {
 		for _, d := range dists {
 			if int(d) == ld {
